@@ -280,4 +280,57 @@ def ofFields : List (List Char × Expr) → List (List Char × Surf)
   | (n, e) :: rest => (n, ofExpr e) :: ofFields rest
 end
 
+
+mutual
+/-- every unicode-exponent node carries a unicode-exponent token (what the parser builds) -/
+def Expr.canon : Expr → Bool
+  | .neg e | .lnot e | .fact _ e | .field e _ => e.canon
+  | .bin _ l r | .imul l r => l.canon && r.canon
+  | .upow b t => b.canon && t.kind == .unicodeExponent
+  | .call f args => f.canon && canonList args
+  | .cond c t e => c.canon && t.canon && e.canon
+  | .struct _ fs => canonFields fs
+  | .list es => canonList es
+  | _ => true
+def canonList : List Expr → Bool
+  | [] => true
+  | a :: rest => a.canon && canonList rest
+def canonFields : List (List Char × Expr) → Bool
+  | [] => true
+  | (_, e) :: rest => e.canon && canonFields rest
+end
+
+/-- the ASTs the grammar can produce (as the undecorated surface tree `ofExpr e`) -/
+def Expr.wf (e : Expr) : Bool := e.canon && (ofExpr e).wf
+
+mutual
+/-- remove every explicit parenthesis node (the printer re-inserts the necessary ones) -/
+def noParens : Surf → Surf
+  | .paren e => noParens e
+  | .neg lex e => .neg lex (noParens e)
+  | .uplus lex e => .uplus lex (noParens e)
+  | .lnot e => .lnot (noParens e)
+  | .fact n e => .fact n (noParens e)
+  | .bin k lex l r => .bin k lex (noParens l) (noParens r)
+  | .pow lex l r => .pow lex (noParens l) (noParens r)
+  | .powNeg lex lm l r => .powNeg lex lm (noParens l) (noParens r)
+  | .imul l r => .imul (noParens l) (noParens r)
+  | .upow b lex => .upow (noParens b) lex
+  | .call f args => .call (noParens f) (noParensList args)
+  | .field e n => .field (noParens e) n
+  | .list es => .list (noParensList es)
+  | .struct n fs => .struct n (noParensFields fs)
+  | .cond c t e => .cond (noParens c) (noParens t) (noParens e)
+  | .pipe x f => .pipe (noParens x) (noParens f)
+  | s => s
+def noParensList : List Surf → List Surf
+  | [] => []
+  | a :: rest => noParens a :: noParensList rest
+def noParensFields : List (List Char × Surf) → List (List Char × Surf)
+  | [] => []
+  | (n, e) :: rest => (n, noParens e) :: noParensFields rest
+end
+
+def tEof : Token := ⟨.eof, []⟩
+
 end NumbatModel.Syntax
